@@ -293,12 +293,13 @@ Definition err_meta_type : N := 5.      (* meta/sync|connected|connectedAddress|
 Definition err_atomic_delete : N := 6.  (* "atomic deletes unsupported" *)
 Definition err_no_prefix : N := 7.      (* Cache.GnmiUpdate: prefix is nil *)
 Definition err_no_target : N := 8.      (* Cache.GnmiUpdate: unknown target *)
+Definition err_invalid_path : N := 9.   (* gnmiUpdate: empty index path, or [meta] alone *)
 
 Definition panic_join : N := 1.         (* joinPrefixAndPath: p[1:] of an empty slice *)
-Definition panic_path0 : N := 2.        (* path[0] of an empty index path *)
-Definition panic_path1 : N := 3.        (* path[1] of the path [meta] *)
+Definition panic_path0 : N := 2.        (* (no longer produced: fixed by 30e1165) path[0] of an empty index path *)
+Definition panic_path1 : N := 3.        (* (no longer produced: fixed by 30e1165) path[1] of the path [meta] *)
 Definition panic_no_update : N := 4.    (* n.Update[0] of an empty list *)
-Definition panic_nil_val : N := 5.      (* u.Val.Value with u.Val == nil *)
+Definition panic_nil_val : N := 5.      (* Update[0].Val == nil read by generateMetaUpdates *)
 Definition panic_meta_assert : N := 6.  (* generateMetaUpdates: unchecked type assertion on the stored value *)
 Definition panic_old_update : N := 7.   (* old.Update[0] of a stored notification without updates *)
 
@@ -313,25 +314,30 @@ Definition join_path (pr ph : option gpath) : outcome path :=
 (** ** gnmiUpdate *)
 
 (** the metadata side effects made before the leaf is looked at
-    ([path[0] == "meta"], [k = path[1]]) *)
-Definition meta_side_effect (t : target) (k : string) (u : update) : target * outcome unit :=
+    ([path[0] == "meta"], [k = path[1]], [two]: [len(path) == 2]).  A missing
+    value ([u.GetVal().GetValue()] of nil) fails the type test like a value of
+    the wrong kind; a registered integer leaf [meta/<counter>] only takes an
+    integer. *)
+Definition meta_side_effect (t : target) (k : string) (two : bool) (u : update) : target * outcome unit :=
   if String.eqb k md_sync then
     match u_val u with
-    | None => (t, Panic panic_nil_val)
     | Some (TBool b) => (set_meta (set_sync t b) (md_set_bool (t_meta t) md_sync b), Ok tt)
-    | Some _ => (t, Err err_meta_type)
+    | _ => (t, Err err_meta_type)
     end
   else if String.eqb k md_connected then
     match u_val u with
-    | None => (t, Panic panic_nil_val)
     | Some (TBool b) => (set_meta t (md_set_bool (t_meta t) md_connected b), Ok tt)
-    | Some _ => (t, Err err_meta_type)
+    | _ => (t, Err err_meta_type)
     end
   else if String.eqb k md_connected_addr || String.eqb k md_connect_error then
     match u_val u with
-    | None => (t, Panic panic_nil_val)
     | Some (TStr s) => (set_meta t (md_set_str (t_meta t) k s), Ok tt)
-    | Some _ => (t, Err err_meta_type)
+    | _ => (t, Err err_meta_type)
+    end
+  else if two && name_in k md_int_names then
+    match u_val u with
+    | Some (TInt _) => (t, Ok tt)
+    | _ => (t, Err err_meta_type)
     end
   else (t, Ok tt).
 
@@ -358,12 +364,12 @@ Definition is_real (p : path) : bool :=
 
 Definition update_pre (t : target) (p : path) (u : update) : target * outcome unit :=
   match p with
-  | [] => (t, Panic panic_path0)
+  | [] => (t, Err err_invalid_path)            (* "invalid path" *)
   | p0 :: prest =>
       if negb (String.eqb p0 md_root) then (t, Ok tt)
       else match prest with
-           | [] => (t, Panic panic_path1)
-           | k :: _ => meta_side_effect t k u
+           | [] => (t, Err err_invalid_path)   (* the path [meta] alone *)
+           | k :: rest => meta_side_effect t k (match rest with [] => true | _ :: _ => false end) u
            end
   end.
 
@@ -540,28 +546,21 @@ Definition gnmi_remove (t : target) (n : notif) : target * outcome (list notif) 
       match join_path (n_prefix n) (Some d) with
       | Panic w => (t, Panic w)
       | Err e => (t, Err e)
-      | Ok [] => (t, Panic panic_path0)
-      | Ok ((p0 :: prest) as p) =>
-          let pre :=
-            if String.eqb p0 md_root then
-              match prest with
-              | [] => (t, Panic panic_path1)
-              | k :: _ => (set_meta t (md_reset_entry (t_meta t) k), Ok tt)
-              end
-            else (t, Ok tt) in
-          match pre with
-          | (t1, Panic w) => (t1, Panic w)
-          | (t1, Err e) => (t1, Err e)
-          | (t1, Ok _) =>
-              let r := CTreeModel.delete_cond (t_tree t1) p (fun v => Z.ltb (n_ts v) (n_ts n)) in
-              let removed := map snd (snd r) in
-              let t2 := set_tree t1 (fst r) in
-              match removed with
-              | [] => (t2, Ok [])
-              | _ :: _ =>
-                  let k := Z.of_nat (List.length removed) in
-                  (add_int (add_int t2 md_leaf_count (- k)) md_del_count k, Ok removed)
-              end
+      | Ok p =>
+          (* [len(path) > 1 && path[0] == "meta"]: reset the metadata entry *)
+          let t1 := match p with
+                    | p0 :: k :: _ =>
+                        if String.eqb p0 md_root then set_meta t (md_reset_entry (t_meta t) k) else t
+                    | _ => t
+                    end in
+          let r := CTreeModel.delete_cond (t_tree t1) p (fun v => Z.ltb (n_ts v) (n_ts n)) in
+          let removed := map snd (snd r) in
+          let t2 := set_tree t1 (fst r) in
+          match removed with
+          | [] => (t2, Ok [])
+          | _ :: _ =>
+              let k := Z.of_nat (List.length removed) in
+              (add_int (add_int t2 md_leaf_count (- k)) md_del_count k, Ok removed)
           end
       end
   end.
